@@ -46,7 +46,18 @@ Describe(i) == LET e == Steps[i] IN
 SelfG(p) == [H |-> [c \in DOMAIN p.ch |-> p.ch[c].curH.htlcs], C |-> [c \in DOMAIN p.ch |-> p.ch[c].curC.htlcs]]
 InFlight(p) == \E h \in DOMAIN p.inv : p.inv[h].amt > 0 /\ GOut(SelfG(p), h) > 0
 FirstN(S, n) == LET q == SetToSeq(S) IN SubSeq(q, 1, Min(n, Len(q)))
+\* which sequences violate a clause (one pass; used to minimise a violating history in batches)
+JudgeAll ==
+  FoldLeft(LAMBDA acc, e :
+             LET g0 == IF e.step = 0 THEN InitGhost(DOMAIN e.pre.ch, DOMAIN e.pre.inv) ELSE acc.g
+                 g1 == Ghost(g0, e.req, RespOf(e), e.pre, e.post, "ab")
+                 sk == (e.step # 0 /\ acc.skip) \/ (Exclude = "stale-revoke" /\ StaleStep(e))
+                 viol == IF IOEnv.PM_JUDGE = "stale" THEN StaleStep(e) /\ ~Inv_C06a(g1, K)
+                         ELSE ~sk /\ ~(Inv_C06a(g1, K) /\ Inv_C06b(g1)) IN
+             [g |-> g1, skip |-> sk, bad |-> IF viol THEN acc.bad \cup {e.seq} ELSE acc.bad],
+           [g |-> InitGhost({}, {}), skip |-> FALSE, bad |-> {}], Steps).bad
 Report == [ steps |-> Len(Steps),
+            bad_seqs |-> IF IOEnv.PM_JUDGE = "" THEN <<>> ELSE SetToSeq(JudgeAll),
             accepted |-> Cardinality({i \in Idx : Steps[i].resp.ok}),
             changed |-> Cardinality({i \in Idx : Steps[i].pre # Steps[i].post}),
             in_flight_steps |-> Cardinality({i \in Idx : InFlight(Steps[i].post)}),
